@@ -195,6 +195,8 @@ pub fn v3_poll(bytes: &[u8], sched: Vec<Sched>, term: Term) -> String {
                     drop(fut);
                     if rd.drop_requested {
                         rd.drop_requested = false;
+                        // the caller-held state is plain data (`Clone`): a caller may continue from a copy of it
+                        state = state.clone();
                     }
                     // whether or not a drop was requested, a fresh future over the same state must
                     // behave identically; for plain Pending we also re-create (borrowck), which is
